@@ -57,7 +57,17 @@ def cmd_run(a):
                  obligations_bounded_deductive=sum(v[1] for k, v in agg['by_clause'].items() if meta.get(k, {}).get('tier') == 'B'),
                  obligations_runtime_standin=sum(v[1] for k, v in agg['by_clause'].items() if meta.get(k, {}).get('tier') == 'R'),
                  known_findings_reported=sorted(verdict['known_hits']),
-                 source_sha256=evidence.source_hashes(['sigtools._signatures']),
+                 source_sha256=evidence.source_hashes(sorted({'sigtools.' + u.split(':')[0] for u in agg['units_entered']} | {'sigtools._signatures'})),
+                 functions_under_contract=sorted({k.split('/')[0] for k in agg['by_clause']}),
+                 callees_replaced_by_their_contract=agg['summaries_used'],
+                 external_calls_modelled=agg['externals_used'],
+                 assumptions_extra=(['the contracts of the callees listed in callees_replaced_by_their_contract are ASSUMED at their call sites in this run and discharged '
+                                     'on the callee\'s own body by the obligations of the units named after them (same check or the property that owns them)'] if agg['summaries_used'] else []) +
+                 (['external calls (inspect.signature, inspect.getsource, ast.parse, eval, user forgers / hints / descriptors) return an arbitrary value of the stated kind or raise '
+                   'an exception whose class is a solver variable restricted as follows: inspect.signature TypeError/ValueError; getsource OSError; ast.parse SyntaxError/ValueError; '
+                   'user code any Exception (descriptor reads: not AttributeError); BaseException outside Exception excluded; data descriptors with __delete__ and objects refusing '
+                   'setattr after a successful delattr excluded (DESCR, SETATTR)'] if agg['externals_used'] or any('retrieval' in (g['name']) or 'discovery' in g['name'] for g in groups) else []) +
+                 (['EQ is WEAKENED in the reflexivity units of C14: == on default / annotation values is not assumed reflexive there'] if prop == 'C14' else []),
                  explanation='contract-based deductive verification of the real code: the functions listed in '
                  'functions_interpreted are re-read from /repo and symbolically executed from their AST on every run; '
                  'every clause of the sidecar contracts (contracts/*.py) that serves this property becomes one obligation '
